@@ -711,9 +711,9 @@ enum
     C09_NRATIOS = sizeof (C09_RATIO_NUM) / sizeof (C09_RATIO_NUM[0])
 };
 // Exactly parallel / antiparallel pair (a, b) = (m * v, +-(p/q) * v) * 2^e for a small-integer direction v
-// (|c| <= 16), m in {1, 1, 1, 1, 3, 5, 7, 1/2... } so that the ratio b/a is never a power of two.  Every product
+// (|c| <= 16), m in {1 (5/8), 3, 5, 7} chosen so that the ratio b/a = p/(q m) is never a power of two.  Every product
 // of two coordinates has at most 3+5+5+5 = 18 significant bits: all products of the cross product a x b are exact and
-// cancel exactly, in float and in double.  A pure function of eight one-byte draws; (vidx, ridx) identify the
+// cancel exactly, in float and in double.  A pure function of six one-byte draws; (vidx, ridx) identify the
 // (direction, ratio) pair.  anti receives whether the pair is antiparallel, rational whether q > 1.
 template <class T> static inline void gen_exact_parallel (vp::Src& s, Vec3<T>& a, Vec3<T>& b, bool& anti, bool& rational)
 {
@@ -752,7 +752,8 @@ template <class T> static inline void gen_exact_perp (vp::Src& s, Vec3<T>& a, Ve
     if (b.x == 0 && b.y == 0 && b.z == 0) b = a.cross (Vec3<T> (0, 0, 1));
 }
 // b at angle theta0 + delta from a, theta0 in {0, pi/2, pi}, |delta| = 2^-k (k = 4 .. digits+3; towards the inside
-// for 0 and pi), constructed in quad and rounded to T; the length of b is blen.  Returns theta0 class 0 / 1 / 2.
+// for 0 and pi), constructed in quad about a perpendicular that is exact (e, -e, f) or random, and rounded to T;
+// the length of b is 1 +- 2^-k', a power of two, or generic.  Returns theta0 class 0 / 1 / 2.
 template <class T> static inline int gen_near_partner (vp::Src& s, const Vec3<T>& a, Vec3<T>& b, int& k)
 {
     Q3 ah = unit (toq (a));
